@@ -65,9 +65,9 @@ Qed.
 Definition upd_entry (w : world) (u : url) (t : text) (lgo : option lang) (nv : option nat) : option entry :=
   let c := w_ccfg w in
   let d := cur_dict w u in
-  let e1 := rebase d c (match lookup u (s_docs w) with Some e => e | None => new_entry lgo d c end) in
-  if stale nv (e_ver e1) then Some e1 else
-  let e2 := bump nv e1 in
+  let e0 := match lookup u (s_docs w) with Some e => e | None => new_entry lgo d c end in
+  if stale nv (e_ver e0) then lookup u (s_docs w) else
+  let e2 := rebase d c (bump nv e0) in
   match e_lang e2 with
   | None => None
   | Some lg =>
@@ -80,11 +80,19 @@ Definition upd_entry (w : world) (u : url) (t : text) (lgo : option lang) (nv : 
       end
   end.
 
+(* an outdated update does not touch doc_state *)
+Definition outdated (w : world) (u : url) (lgo : option lang) (nv : option nat) : bool :=
+  stale nv (e_ver (match lookup u (s_docs w) with Some e => e | None => new_entry lgo (cur_dict w u) (w_ccfg w) end)).
+
 Definition installed (w : world) (u : url) (t : text) (lgo : option lang) (nv : option nat) : list (url * entry) :=
+  if outdated w u lgo nv then s_docs w else
   match upd_entry w u t lgo nv with
   | Some e => upsert u e (s_docs w)
   | None => remove u (s_docs w)
   end.
+
+Lemma set_docs_id : forall w, set_docs (s_docs w) w = w.
+Proof. intros []; reflexivity. Qed.
 
 Ltac fuel_step H :=
   match type of H with
@@ -112,11 +120,11 @@ Lemma critical_run : forall f rest l w w' t,
 Proof.
   intros f rest l w w' t Hlock Ht Hs Hu Hf H.
   fuel_step H. cbn [exec] in H. rewrite Hlock, Ht, Hs, Hu, Hf in H.
-  fold (cur_dict w (l_url l)) in H. unfold installed, upd_entry.
-  set (e1 := rebase _ _ _) in *.
-  destruct (stale (l_ver l) (e_ver e1)).
-  { cbn [app] in H. exists f, l. split; [exact H|split; reflexivity]. }
-  set (e2 := bump _ e1) in *.
+  fold (cur_dict w (l_url l)) in H. unfold installed, outdated, upd_entry.
+  set (e0 := match lookup (l_url l) (s_docs w) with Some e => e | None => _ end) in *.
+  destruct (stale (l_ver l) (e_ver e0)).
+  { cbn [app] in H. exists f, l. rewrite set_docs_id. split; [exact H|split; reflexivity]. }
+  set (e2 := rebase _ _ _) in *.
   destruct (e_lang e2) as [lg|]; [|cbn [app] in H; exists f, l; split; [exact H|split; reflexivity]].
   destruct (kind lg).
   - cbn [app] in H. exists f, l. split; [exact H|split; reflexivity].
@@ -168,12 +176,15 @@ Proof. intros w w' u A B C D. unfold expected, fdict_of. rewrite A, B, C, D. ref
 Lemma lookup_installed_neq : forall w u t lgo nv v, v <> u -> lookup v (installed w u t lgo nv) = lookup v (s_docs w).
 Proof.
   intros w u t lgo nv v Hv. apply url_eqb_neq in Hv. unfold installed.
+  destruct (outdated w u lgo nv); [reflexivity|].
   destruct (upd_entry w u t lgo nv); [apply lookup_upsert_neq|apply lookup_remove_neq]; exact Hv.
 Qed.
 
 Lemma lookup_installed_eq : forall w u t lgo nv, lookup u (installed w u t lgo nv) = upd_entry w u t lgo nv.
 Proof.
-  intros. unfold installed. destruct (upd_entry w u t lgo nv); [apply lookup_upsert_eq|apply lookup_remove_eq].
+  intros. unfold installed, outdated. destruct (stale nv _) eqn:E.
+  - unfold upd_entry. rewrite E. reflexivity.
+  - destruct (upd_entry w u t lgo nv); [apply lookup_upsert_eq|apply lookup_remove_eq].
 Qed.
 
 Lemma install_inv : forall w u t lgo nv,
@@ -231,16 +242,16 @@ Lemma upd_entry_spec : forall w u t lgo nv lg B i0 cl t0 p ign dd v0,
     Some (mkentry (Some lg) (with_ident (cur_dict w u) (idof lg t)) (idof lg t) (w_ccfg w) (Some t) (w_ccfg w) ign
                   (cur_dict w u) (with_ident (cur_dict w u) (idof lg t)) (match nv with Some n => Some n | None => Some v0 end)).
 Proof.
-  intros w u t lgo nv lg B i0 cl t0 p ign dd v0 He Hk Hi Hc Hst. unfold upd_entry. rewrite He. unfold rebase. cbn [e_base].
-  destruct (dictv_eqb B (cur_dict w u)) eqn:Ed.
-  - apply dictv_eqb_eq in Ed. subst B. rewrite (Hc eq_refl). cbn [e_ver]. rewrite Hst.
-    unfold idof. destruct nv as [n|]; cbn [bump e_set_ver e_lang e_ident];
-      (destruct (kind lg) eqn:Ek; [|destruct (i0 =? t_ident t) eqn:Ei; [apply Nat.eqb_eq in Ei|]|congruence]);
-      try (rewrite (Hi ltac:(congruence))); try subst i0; reflexivity.
-  - cbn [e_rebase e_ver]. rewrite Hst.
-    unfold idof. destruct nv as [n|]; cbn [bump e_set_ver e_rebase e_lang e_ident];
-      (destruct (kind lg) eqn:Ek; [|destruct (0 =? t_ident t) eqn:Ei; [apply Nat.eqb_eq in Ei; rewrite <- Ei|]|congruence]);
-      reflexivity.
+  intros w u t lgo nv lg B i0 cl t0 p ign dd v0 He Hk Hi Hc Hst. unfold upd_entry. rewrite He. cbn [e_ver]. rewrite Hst.
+  unfold rebase, idof.
+  destruct nv as [n|]; cbn [bump e_set_ver e_base];
+    (destruct (dictv_eqb B (cur_dict w u)) eqn:Ed;
+     [ apply dictv_eqb_eq in Ed; subst B; rewrite (Hc eq_refl); cbn [e_lang e_ident e_set_ver];
+       (destruct (kind lg) eqn:Ek; [|destruct (i0 =? t_ident t) eqn:Ei; [apply Nat.eqb_eq in Ei|]|congruence]);
+       try (rewrite (Hi ltac:(congruence))); try subst i0; reflexivity
+     | cbn [e_rebase e_lang e_ident e_set_ver];
+       (destruct (kind lg) eqn:Ek; [|destruct (0 =? t_ident t) eqn:Ei; [apply Nat.eqb_eq in Ei; rewrite <- Ei|]|congruence]);
+       reflexivity ]).
 Qed.
 
 (* the same for a document doc_state does not hold *)
@@ -253,16 +264,17 @@ Lemma upd_entry_new : forall w u t lg v,
                          (cur_dict w u) (with_ident (cur_dict w u) (idof lg t)) (Some v))
     end.
 Proof.
-  intros w u t lg v He. unfold upd_entry. rewrite He. unfold rebase. cbn [new_entry e_base]. rewrite dictv_eqb_refl.
-  cbn [e_ver stale bump e_set_ver e_lang e_ident new_entry]. unfold idof.
+  intros w u t lg v He. unfold upd_entry, rebase. rewrite He. cbn [new_entry e_ver stale bump e_set_ver e_base].
+  rewrite dictv_eqb_refl. cbn [new_entry e_set_ver e_lang e_ident]. unfold idof.
   destruct (kind lg) eqn:Ek; [reflexivity| |reflexivity].
   destruct (0 =? t_ident t) eqn:Ei; [apply Nat.eqb_eq in Ei; rewrite <- Ei|]; reflexivity.
 Qed.
 
 Lemma upd_entry_absent : forall w u t nv, lookup u (s_docs w) = None -> upd_entry w u t None nv = None.
 Proof.
-  intros w u t nv He. unfold upd_entry. rewrite He. unfold rebase. cbn [new_entry e_base]. rewrite dictv_eqb_refl.
-  cbn [e_ver]. destruct nv; reflexivity.
+  intros w u t nv He. unfold upd_entry. rewrite He. cbn [new_entry e_ver].
+  assert (S : stale nv None = false) by (destruct nv; reflexivity). rewrite S.
+  unfold rebase. destruct nv; cbn [bump e_set_ver e_base new_entry]; rewrite dictv_eqb_refl; reflexivity.
 Qed.
 
 Lemma upd_entry_same : forall w w' u t lgo nv,
